@@ -82,3 +82,33 @@ Proof.
     intros r Hr. cbv beta in Hr. rewrite Hr. exact W.
   - cbn [length]. f_equal. apply annex_rows_count. reflexivity.
 Qed.
+
+(* cell-exact: the j-th output row is, table by table, the j-th data row of that table squared up to the table's own width
+   (annex_cells of the rows from j on: `missing` throughout once the table is exhausted) *)
+Lemma skipn_tl {A} (j : nat) (l : list A) : skipn j (tl l) = skipn (S j) l.
+Proof. destruct l; [destruct j; reflexivity|reflexivity]. Qed.
+
+Theorem annex_rows_nth missing (widths : list nat) (fuel : nat) (rowss : list (list row)) (j : nat) :
+  fuel = fold_right (fun rs n => Nat.max (length rs) n) O rowss -> (j < fuel)%nat ->
+  nth_error (annex_rows missing widths fuel rowss) j
+  = Some (concat (map (annex_cells missing) (combine widths (map (skipn j) rowss)))).
+Proof.
+  revert rowss j; induction fuel as [|f IH]; intros rowss j H Hj; [lia|]. cbn [annex_rows].
+  destruct (forallb _ rowss) eqn:E; [apply all_empty_max in E; lia|].
+  destruct j as [|j]; cbn [nth_error].
+  - f_equal. f_equal. f_equal. f_equal. symmetry. rewrite <- (map_id rowss) at 2. apply map_ext. reflexivity.
+  - rewrite (IH (map (fun rs => tl rs) rowss) j) by (rewrite ?max_tl, <- ?H; cbn; lia).
+    rewrite map_map. do 4 f_equal. apply map_ext. intros l. apply skipn_tl.
+Qed.
+
+Theorem annex_model_cell_exact missing (tables : list table) outt (j : nat) :
+  annex_model missing tables = (outt, None) ->
+  (j < fold_right (fun rs n => Nat.max (length rs) n) O (map (fun t => tl t) tables))%nat ->
+  nth_error outt (S j)
+  = Some (concat (map (annex_cells missing)
+                      (combine (map (@length val) (map (fun t : table => match t with h :: _ => h | [] => [] end) tables))
+                               (map (skipn j) (map (fun t => tl t) tables))))).
+Proof.
+  unfold annex_model. intros H Hj; inversion H; subst; clear H. cbn [nth_error].
+  apply annex_rows_nth; [reflexivity|exact Hj].
+Qed.
